@@ -316,7 +316,11 @@ func (b *BloomSearchEngine) Stop(ctx context.Context) error {
 		stopAfter()
 		return nil
 	case <-ctx.Done():
-		// Timeout occurred
+		// Timeout occurred. Abort flush work before returning rather than
+		// relying on the AfterFunc alone: context implementations may run
+		// AfterFunc callbacks late, and a queued flush must not start store
+		// work after Stop has already reported the deadline.
+		b.flushCancel()
 		return fmt.Errorf("shutdown timeout exceeded: %w", ctx.Err())
 	}
 }
